@@ -761,14 +761,23 @@ func (c *Ctx) opcodeType() *types.Named {
 func ruleZeroVM(c *Ctx, r *Report) {
 	const rule = "R-ZERO-VM"
 	desc := "a nilable field of VM is used only where it is known non-nil (the zero VM is a valid VM)"
-	vmT := c.engType("VM")
+	c.nilableFieldUses(r, rule, desc, "VM", nil)
+	// (with fix F55) prolog.New(in, nil) and New(nil, out) are accepted: a Stream's source and sink may be nil
+	c.nilableFieldUses(r, rule, "the source/sink of a Stream is used only where it is known non-nil (New accepts nil for either)", "Stream", map[string]bool{"source": true, "sink": true})
+}
+
+func (c *Ctx) nilableFieldUses(r *Report, rule, desc, typ string, only map[string]bool) {
+	vmT := c.engType(typ)
 	if vmT == nil {
-		r.undecided(rule, "anchor:VM", "-", "locate engine.VM", "not found")
+		r.undecided(rule, "anchor:"+typ, "-", "locate engine."+typ, "not found")
 		return
 	}
 	st := vmT.Underlying().(*types.Struct)
 	nilable := map[int]string{}
 	for i := 0; i < st.NumFields(); i++ {
+		if only != nil && !only[st.Field(i).Name()] {
+			continue
+		}
 		switch st.Field(i).Type().Underlying().(type) {
 		case *types.Interface, *types.Pointer, *types.Signature:
 			nilable[i] = st.Field(i).Name()
@@ -783,7 +792,7 @@ func ruleZeroVM(c *Ctx, r *Report) {
 				return
 			}
 			fa, ok := ld.X.(*ssa.FieldAddr)
-			if !ok || !isEngNamed(deref(fa.X.Type()), "VM") || nilable[fa.Field] == "" || ld.Referrers() == nil {
+			if !ok || !isEngNamed(deref(fa.X.Type()), typ) || nilable[fa.Field] == "" || ld.Referrers() == nil {
 				return
 			}
 			field := nilable[fa.Field]
@@ -823,7 +832,7 @@ func ruleZeroVM(c *Ctx, r *Report) {
 					continue
 				}
 				n++
-				base := fmt.Sprintf("%s/VM.%s", fname(fn), field)
+				base := fmt.Sprintf("%s/%s.%s", fname(fn), typ, field)
 				seen[base]++
 				key := fmt.Sprintf("%s#%d", base, seen[base])
 				nonNil := false
@@ -834,7 +843,7 @@ func ruleZeroVM(c *Ctx, r *Report) {
 						continue
 					}
 					if l2, ok := x.(*ssa.UnOp); ok && l2.Op == token.MUL {
-						if fa2, ok := l2.X.(*ssa.FieldAddr); ok && fa2.Field == fa.Field && isEngNamed(deref(fa2.X.Type()), "VM") && c.sameVar(fa2.X, fa.X) {
+						if fa2, ok := l2.X.(*ssa.FieldAddr); ok && fa2.Field == fa.Field && isEngNamed(deref(fa2.X.Type()), typ) && c.sameVar(fa2.X, fa.X) {
 							nonNil = true
 						}
 					}
@@ -847,7 +856,7 @@ func ruleZeroVM(c *Ctx, r *Report) {
 							return
 						}
 						fa2, ok := st.Addr.(*ssa.FieldAddr)
-						if !ok || fa2.Field != fa.Field || !isEngNamed(deref(fa2.X.Type()), "VM") {
+						if !ok || fa2.Field != fa.Field || !isEngNamed(deref(fa2.X.Type()), typ) {
 							return
 						}
 						if _, isClosure := st.Val.(*ssa.MakeClosure); !isClosure {
@@ -864,14 +873,14 @@ func ruleZeroVM(c *Ctx, r *Report) {
 					})
 				}
 				if nonNil {
-					r.ok(rule, key, c.at(ref), desc, "VM."+field+" "+use+" where it is known non-nil", true)
+					r.ok(rule, key, c.at(ref), desc, typ+"."+field+" "+use+" where it is known non-nil", true)
 				} else {
-					r.bad(rule, key, c.at(ref), desc, "VM."+field+" "+use+" although it may be nil (zero-value VM): a nil dereference, recovered at best into an error that says \"panic: ...\"")
+					r.bad(rule, key, c.at(ref), desc, typ+"."+field+" "+use+" although it may be nil: a nil dereference, recovered at best into an error that says \"panic: ...\"")
 				}
 			}
 		})
 	}
 	if n == 0 {
-		r.undecided(rule, "scan/uses", "-", desc, "no use of a nilable VM field found")
+		r.undecided(rule, "scan/uses:"+typ, "-", desc, "no use of a nilable field of "+typ+" found")
 	}
 }
